@@ -75,6 +75,16 @@ pub(crate) fn mk_fs<D: ReadWriteSeek, TP>(dev: D, g: &Geo, tp: TP, update_access
     }
 }
 
+/// Same with nothing pending: FS-info cache unknown and clean, status byte as found at mount.
+pub(crate) fn mk_fs_plain<D: ReadWriteSeek, TP>(dev: D, g: &Geo, tp: TP, update_accessed_date: bool) -> Fs<D, TP> {
+    mk_fs(dev, g, tp, update_accessed_date, FsInfoSector::default(), FsStatusFlags::decode(g.status))
+}
+/// Accessors for sibling harness modules (the fields are private to fs.rs).
+pub(crate) fn fs_pending(fs: &Fs<impl ReadWriteSeek, impl Sized>) -> (bool, FsStatusFlags, Option<u32>, Option<u32>) {
+    let i = fs.fs_info.borrow();
+    (i.dirty, fs.current_status_flags.get(), i.free_cluster_count, i.next_free_cluster)
+}
+
 pub(crate) fn any_ft() -> FatType {
     let sel: u8 = kani::any();
     match sel % 3 { 0 => FatType::Fat12, 1 => FatType::Fat16, _ => FatType::Fat32 }
